@@ -8,12 +8,13 @@ Observation: for every event whether its entry point reported success (`CreateCo
 gets from `connstate.Store.FindClientNode` and how `SendCommandToClient` would route.
 
 Reference bookkeeping (`SpecSt`), computed from the events alone:
-* `opened` — connections created (successfully) and not yet closed;
+* `opened` — connections created (successfully) for which `CloseConnection` has not run yet;
 * `latest x = (c, until)` — `c` is the connection of the most recent successful control handshake of client
   `x` (the auth handler accepted, the handler reported success, `x > 0`), it has not been closed since, and its
   last keep-alive (that handshake or a later heartbeat on `c`, each at most `ttl` after the previous one)
   keeps the registration valid through `until`.  A heartbeat that comes later than `until` ends the
-  obligation (the client did not keep the registration alive).
+  obligation (the client did not keep the registration alive); so does the server ending the connection by
+  duplicate-login eviction (`kick`) or session manager shutdown.
 
 `holds` demands, after every event, for every watched client `x` and every asking node `j`:
 * (A) if `latest x = (c, until)` and `now ≤ until`: the lookup answers exactly `(c.node, c)`;
@@ -23,39 +24,93 @@ Reference bookkeeping (`SpecSt`), computed from the events alone:
 * (C) routing, when (A) applies: the node holding `c` sends locally, a node that holds no open connection
   of `x` forwards to `c.node`;
 * (D) routing, when no connection of `x` is open anywhere: "not connected" on every node.
+  (The routing decision of a node that was shut down is not observed: `Route.down`.)
 Anything else in an observation (error text, wrong arity) makes `holds` false.
 -/
 namespace Tunnox.C08
 
+/-- client ↦ (connection of its latest successful handshake, deadline of the registration). A total function, so
+that "forget every obligation of node `n`" is a plain definition. -/
+abbrev LMap := Nat → Option (Conn × Nat)
+
+namespace LMap
+def empty : LMap := fun _ => none
+def lookup (m : LMap) (x : Nat) : Option (Conn × Nat) := m x
+def insert (m : LMap) (k : Nat) (v : Conn × Nat) : LMap := fun x => if k = x then some v else m x
+def erase (m : LMap) (k : Nat) : LMap := fun x => if k = x then none else m x
+/-- Forget the obligations whose connection lives on node `n`. -/
+def dropNode (m : LMap) (n : Nat) : LMap := fun x =>
+  match m x with
+  | some p => if p.1.node = n then none else some p
+  | none => none
+
+theorem lookup_insert_eq (m : LMap) (k : Nat) (v : Conn × Nat) : lookup (insert m k v) k = some v := by
+  simp [lookup, insert]
+theorem lookup_insert_ne (m : LMap) {k k' : Nat} (v : Conn × Nat) (h : k ≠ k') :
+    lookup (insert m k v) k' = lookup m k' := by simp [lookup, insert, h]
+theorem lookup_erase_eq (m : LMap) (k : Nat) : lookup (erase m k) k = none := by simp [lookup, erase]
+theorem lookup_erase_ne (m : LMap) {k k' : Nat} (h : k ≠ k') : lookup (erase m k) k' = lookup m k' := by
+  simp [lookup, erase, h]
+theorem lookup_dropNode {m : LMap} {n x : Nat} {p : Conn × Nat} (h : lookup (dropNode m n) x = some p) :
+    lookup m x = some p ∧ p.1.node ≠ n := by
+  unfold lookup dropNode at h
+  unfold lookup
+  cases hm : m x with
+  | none => simp [hm] at h
+  | some q =>
+    simp only [hm] at h
+    split at h
+    · cases h
+    · rename_i hne; injection h with h; subst h; exact ⟨rfl, hne⟩
+end LMap
+
 structure SpecSt where
   now : Nat
   opened : List Conn
-  latest : FMap Nat (Conn × Nat)
+  latest : LMap
+  down : List Nat := []   -- nodes that were shut down
 
-def SpecSt.init : SpecSt := ⟨0, [], FMap.empty⟩
+def SpecSt.init : SpecSt := ⟨0, [], LMap.empty, []⟩
 
+/-- The connection is gone: `CloseConnection` ran for it. -/
+def specClose (s : SpecSt) (c : Conn) : SpecSt :=
+  { s with
+    opened := rm c s.opened,
+    latest :=
+      match LMap.lookup s.latest c.client with
+      | some p => if p.1 = c then LMap.erase s.latest c.client else s.latest
+      | none => s.latest }
+
+/-- `r` = what the entry point reported: nil for `open`/handshakes, "this call closed the connection" for closes. -/
 def specStep (ttl : Nat) (s : SpecSt) (r : Bool) : Ev → SpecSt
   | .open c => if r then { s with opened := add c s.opened } else s
   | .hs c ok =>
     if ok && r && decide (c.client > 0) then
-      { s with latest := FMap.insert s.latest c.client (c, s.now + ttl) }
+      { s with latest := LMap.insert s.latest c.client (c, s.now + ttl) }
     else s
   | .hsTunnel _ _ => s
   | .hb c =>
-    match FMap.lookup s.latest c.client with
+    match LMap.lookup s.latest c.client with
     | some p =>
       if p.1 = c then
-        if s.now ≤ p.2 then { s with latest := FMap.insert s.latest c.client (c, s.now + ttl) }
-        else { s with latest := FMap.erase s.latest c.client }
+        if s.now ≤ p.2 then { s with latest := LMap.insert s.latest c.client (c, s.now + ttl) }
+        else { s with latest := LMap.erase s.latest c.client }
       else s
     | none => s
-  | .close c =>
-    { s with
-      opened := rm c s.opened,
-      latest :=
-        match FMap.lookup s.latest c.client with
-        | some p => if p.1 = c then FMap.erase s.latest c.client else s.latest
-        | none => s.latest }
+  -- every way a connection ends reaches `CloseConnection` (direct call, adapter read-loop end, Disconnect
+  -- command, heartbeat-timeout sweep); the last two only act on a connection the registry still knows (`r`)
+  | .close c _ => if r then specClose s c else s
+  -- duplicate-login eviction: the node drops its other connection of the client from the registry and closes its
+  -- stream; the client no longer holds that connection (its `CloseConnection` follows when the read loop ends)
+  | .kick c =>
+    match LMap.lookup s.latest c.client with
+    | some p => if p.1.node = c.node ∧ p.1 ≠ c then { s with latest := LMap.erase s.latest c.client } else s
+    | none => s
+  -- session manager shutdown: every stream of the node is closed (the adapters' `CloseConnection` calls follow)
+  | .shutdown n => { s with latest := LMap.dropNode s.latest n, down := n :: s.down }
+  -- a lookup changes nothing, however its two storage round trips interleave with other events
+  | .lookBegin _ _ => s
+  | .lookEnd _ _ => s
   | .tick dt => { s with now := s.now + dt }
 
 /-- "not connected" (`FindClientNode(0)` is refused as invalid). -/
@@ -64,7 +119,7 @@ def notConnected (x : Nat) (a : Look) : Bool :=
 
 /-- (A) and (B) for one answer. -/
 def lookOk (s : SpecSt) (x : Nat) (a : Look) : Bool :=
-  (match FMap.lookup s.latest x with
+  (match LMap.lookup s.latest x with
    | some p => if s.now ≤ p.2 then a == .found p.1.node p.1 else true
    | none => true)
   &&
@@ -78,7 +133,8 @@ def holdsOpen (s : SpecSt) (j x : Nat) : Bool := s.opened.any (fun c => c.node =
 
 /-- (C) and (D) for the routing decision of node `j`. -/
 def routeOk (s : SpecSt) (x j : Nat) (r : Route) : Bool :=
-  (match FMap.lookup s.latest x with
+  if j ∈ s.down then r == .down else
+  (match LMap.lookup s.latest x with
    | some p =>
      if s.now ≤ p.2 then
        (if j = p.1.node then r == .loc
